@@ -430,7 +430,7 @@ func checkJ8(c *Ctx, jr *joinRoles) {
 		pr := append(problems[i], problems[-1]...)
 		c.R.Check(len(pr) == 0, "J8", joinKey(jr, fn, ""), p.Pos(fn.Pos()), "the accumulated tail is flushed on every path from the loop function to the end of the goroutine", strings.Join(dedup(pr), "; "))
 	}
-	order, okd := DeferRunOrder(jr.entry)
+	order, okd := p.CleanupOrder(jr.entry)
 	closes := false
 	for _, df := range order {
 		if k, a := p.deferKind(df); k == "close" && a == "field:output" {
@@ -490,7 +490,7 @@ func checkT1(c *Ctx, jr *joinRoles) {
 	for _, fn := range jr.rt.Funcs {
 		for _, b := range fn.Blocks {
 			for _, in := range b.Instrs {
-				if st, ok := fieldStore(in, "passAt"); ok && namedOrigin(st.Addr.(*ssa.FieldAddr).X.Type()) == jr.d.Named {
+				if st, ok := fieldStore(in, "passAt"); ok && rootStructOf(st.Addr.(*ssa.FieldAddr)) == jr.d.Named {
 					writers++
 				}
 			}
